@@ -11,6 +11,7 @@ package suites
 //	cap.enum       as cap.session; the fixed part is the COMPLETE set of sessions of at most 3
 //	               steps over a 9-letter alphabet of server lines (incl. a reconnect) under 3
 //	               configurations; the generated part draws longer sequences over the alphabet.
+//	cap.tagsrace   the tag gate under a blocked socket write (see the comment at runTagsRace).
 //	cap.ackremoval as cap.session, but the generated ACK lines may carry "-name" tokens
 //	               (IRCv3: the server acknowledges that the capability was DISABLED).
 //
@@ -38,7 +39,9 @@ package suites
 
 import (
 	"bufio"
+	"crypto/tls"
 	"fmt"
+	"io"
 	"math/rand"
 	"net"
 	"sort"
@@ -195,7 +198,9 @@ func capMin(a, b int) int {
 
 type capSession struct {
 	c     *girc.Client
-	peer  net.Conn
+	peer  net.Conn // what the scripted server reads and writes (the TLS layer for bit U)
+	raw   net.Conn // the pipe end underneath, closed at the end
+	tls   bool
 	mu    sync.Mutex
 	lines []string
 	done  chan error
@@ -228,6 +233,7 @@ type capCfg struct {
 	ssl             bool
 	disableFallback bool
 	noTracking      bool
+	tlsConn         bool // bit U: the connection is TLS (as after an STS upgrade), Config.SSL untouched
 	supported       map[string][]string
 }
 
@@ -247,6 +253,8 @@ func parseCapCfg(bits, sup string) capCfg {
 			cfg.disableFallback = true
 		case 'T':
 			cfg.noTracking = true
+		case 'U':
+			cfg.tlsConn = true
 		}
 	}
 	if sup != "" {
@@ -278,7 +286,7 @@ func (cc capCfg) girc() girc.Config {
 }
 
 func startCapSession(cc capCfg) *capSession {
-	s := &capSession{done: make(chan error, 1)}
+	s := &capSession{done: make(chan error, 1), tls: cc.tlsConn}
 	cfg := cc.girc()
 	cfg.RecoverFunc = func(*girc.Client, *girc.HandlerError) {}
 	s.c = girc.New(cfg)
@@ -299,9 +307,21 @@ func startCapSession(cc capCfg) *capSession {
 func (s *capSession) connect() {
 	mark := len(s.snapshot())
 	in, out := net.Pipe()
-	s.peer = in
+	s.raw = in
+	var srv, cli net.Conn = in, out
+	if s.tls {
+		// an in-process TLS server on the pipe; the client side is a *tls.Conn, which is what
+		// Client.TLSConnectionState() looks for (session tickets off: on an unbuffered pipe
+		// the post-handshake ticket write would meet the client's first write)
+		conf, err := stsServerTLS()
+		if err == nil {
+			srv = tls.Server(in, conf)
+			cli = tls.Client(out, &tls.Config{InsecureSkipVerify: true, ServerName: stsHost})
+		}
+	}
+	s.peer = srv
 	go func() {
-		r := bufio.NewReader(in)
+		r := bufio.NewReader(srv)
 		for {
 			l, err := r.ReadString('\n')
 			if l != "" {
@@ -314,7 +334,7 @@ func (s *capSession) connect() {
 			}
 		}
 	}()
-	go func() { s.done <- s.c.MockConnect(out) }()
+	go func() { s.done <- s.c.MockConnect(cli) }()
 	s.waitFor(func(l []string) bool {
 		for _, x := range l[mark:] {
 			if strings.HasPrefix(x, "USER ") {
@@ -337,7 +357,7 @@ func (s *capSession) reconnect() bool {
 	case <-time.After(20 * time.Second):
 		return false
 	}
-	s.peer.Close()
+	s.raw.Close()
 	dl := time.Now().Add(20 * time.Second)
 	for s.c.IsConnected() && time.Now().Before(dl) {
 		time.Sleep(200 * time.Microsecond)
@@ -372,6 +392,20 @@ func capCanonLine(l string) string {
 		return "AUTH:" + Hex(strings.TrimPrefix(strings.TrimPrefix(l, "AUTHENTICATE "), ":"))
 	}
 	return "?" + Hex(l)
+}
+
+// capHasAttr: does the advertisement token "name=a,b=c" carry the attribute key?
+func capHasAttr(tok, key string) bool {
+	eq := strings.IndexByte(tok, '=')
+	if eq <= 0 {
+		return false
+	}
+	for _, a := range strings.Split(tok[eq+1:], ",") {
+		if k, _, _ := strings.Cut(a, "="); k == key {
+			return true
+		}
+	}
+	return false
 }
 
 func capTokenName(tok string) string {
@@ -413,7 +447,7 @@ func runCapSession(c Case) Result {
 		case <-s.done:
 		case <-time.After(20 * time.Second):
 		}
-		s.peer.Close()
+		s.raw.Close()
 	}
 	defer cleanup()
 
@@ -471,6 +505,8 @@ func runCapSession(c Case) Result {
 	advertised := map[string]bool{}
 	offered := map[string]bool{}    // listed since the last ACK/NAK and not deleted since
 	offeredLit := map[string]bool{} // listed since the last ACK (what an unpruned tmpCap explains)
+	pendingSts := ""                // the pending (supported, on offer) advertisement of sts, e.g. "sts=duration=60"
+	enabledStsDuration := false     // sts is acknowledged and the value it was acknowledged with has a duration key
 	ledger := map[string]bool{}     // acknowledged and not since deleted / disabled (IRCv3 reading)
 	ledgerLit := map[string]bool{}  // the same with "-name" read as a capability name
 	lookup := func(l map[string]bool, name string) bool {
@@ -519,6 +555,7 @@ func runCapSession(c Case) Result {
 			offeredLit = map[string]bool{}
 			ledger = map[string]bool{}
 			ledgerLit = map[string]bool{}
+			pendingSts, enabledStsDuration = "", false
 			reg := s.snapshot()[mark:]
 			checkReg(reg)
 			tmp, en := s.c.VerifCapState()
@@ -545,10 +582,23 @@ func runCapSession(c Case) Result {
 					advertised[capTokenName(tok)] = true
 					offered[capTokenName(tok)] = true
 					offeredLit[capTokenName(tok)] = true
+					if capTokenName(tok) == "sts" && supported("sts") {
+						pendingSts = tok
+					}
 				}
 			case sub == "NAK" && len(params) >= 2:
 				offered = map[string]bool{}
+				pendingSts = ""
 			case sub == "ACK" && len(params) == 3:
+				for _, tok := range strings.Split(last, " ") {
+					switch tok {
+					case "sts":
+						enabledStsDuration = capHasAttr(pendingSts, "duration")
+					case "-sts":
+						enabledStsDuration = false
+					}
+				}
+				pendingSts = ""
 				offered = map[string]bool{}
 				offeredLit = map[string]bool{}
 				for _, tok := range strings.Split(last, " ") {
@@ -564,6 +614,9 @@ func runCapSession(c Case) Result {
 					delete(ledger, capTokenName(tok))
 					delete(ledgerLit, capTokenName(tok))
 					delete(offered, capTokenName(tok))
+					if capTokenName(tok) == "sts" {
+						pendingSts, enabledStsDuration = "", false
+					}
 				}
 			}
 		}
@@ -707,6 +760,20 @@ func runCapSession(c Case) Result {
 					if !supported(tok) {
 						fail("req-unsupported", "round %d requests %q which the configuration does not support", k, tok)
 					}
+				}
+			}
+		}
+		// ---- oracle: STS on a connection that IS secure (bit U: TLS although Config.SSL is
+		// false, the state an STS upgrade leaves). The policy is judged as for a secure
+		// connection: never another upgrade, and no "invalid policy" ERROR when the
+		// acknowledged value carries a duration (a port, if any, is ignored).
+		if cc.tlsConn && !cc.noTracking && !cc.disableSTS && sub == "ACK" && len(params) == 3 && ledger["sts"] {
+			for _, o := range outs {
+				if o == "U" {
+					fail("sts-tls-misjudged", "round %d: STS upgrade started on a connection that is already TLS; the round is not concluded", k)
+				}
+				if o == "E" && enabledStsDuration {
+					fail("sts-tls-misjudged", "round %d: sts with a duration acknowledged on a TLS connection, answered by the invalid-policy ERROR instead of CAP END / AUTHENTICATE", k)
 				}
 			}
 		}
@@ -854,6 +921,9 @@ func genCapSessionCfg(r *rand.Rand) (bits, sup string) {
 	if r.Intn(12) == 0 {
 		bits += "T"
 	}
+	if r.Intn(5) == 0 {
+		bits += "U"
+	}
 	switch r.Intn(6) {
 	case 0:
 		sup = "echo-message"
@@ -876,7 +946,7 @@ func genCapAdvert(r *rand.Rand, removal bool) string {
 		case 0:
 			switch name {
 			case "sts":
-				name += "=" + Pick(r, "port=6697", "port=6697,duration=100", "duration=5", "port=5", "port=", "port=abc", "preload")
+				name += "=" + Pick(r, "port=6697", "port=6697,duration=100", "duration=5", "duration=300,preload", "duration", "port=5", "port=", "port=abc", "preload")
 			case "sasl":
 				name += "=PLAIN,EXTERNAL"
 			default:
@@ -1120,6 +1190,13 @@ func init() {
 			{"T", "", "multi-prefix", ev("*", "LS", "multi-prefix"), ev("me", "ACK", "multi-prefix")},
 			{"", "", "a", ev("me", "ACK", "multi-prefix "), ev("me", "ACK", ""), ev("me", "DEL", "")},
 			{"", "", "multi-prefix", ev("*", "LS", "multi-prefix multi-prefix=x multi-prefix"), ev("me", "ACK", "multi-prefix multi-prefix")},
+			// a connection that is TLS although Config.SSL is false (after an STS upgrade)
+			{"U", "", "sts", ev("*", "LS", "sts=duration=300"), ev("me", "ACK", "sts")},
+			{"U", "", "sts multi-prefix", ev("*", "LS", "sts=port=6697,duration=300 multi-prefix"), ev("me", "ACK", "sts multi-prefix"), ev("me", "NEW", "batch"), ev("me", "ACK", "batch")},
+			{"U", "", "sts", ev("*", "LS", "sts=port=6697"), ev("me", "ACK", "sts")},
+			{"US", "", "sts sasl", ev("*", "LS", "sts=duration=1,preload sasl"), ev("me", "ACK", "sts sasl")},
+			{"UL", "", "sts", ev("*", "LS", "sts=duration=300"), ev("me", "ACK", "sts")},
+			{"UD", "", "sts", ev("*", "LS", "sts=duration=300"), ev("me", "ACK", "sts")},
 			// multi-line listings whose final line has nothing usable: the earlier lines count
 			{"", "", "away-notify multi-prefix", ev("*", "LS", "*", "away-notify multi-prefix foo/unknown"), ev("*", "LS", "bar/unknown example.org/vendor=1"), ev("me", "ACK", "away-notify multi-prefix")},
 			{"S", "", "sasl batch", ev("*", "LS", "*", "sasl=PLAIN"), ev("*", "LS", "*", "batch"), ev("*", "LS", ""), ev("me", "ACK", "batch sasl")},
@@ -1145,9 +1222,9 @@ func init() {
 var capEnumAlphabet = func() []string {
 	ev := func(p ...string) string { return strings.Join(p, "\n") }
 	return []string{
-		ev("*", "LS", "*", "multi-prefix sts=port=6697"), // continuation line
-		ev("*", "LS", "sasl message-tags"),               // final line
-		ev("*", "LS", "unknown-cap"),                     // nothing usable by itself
+		ev("*", "LS", "*", "multi-prefix sts=port=6697,duration=60"), // continuation line
+		ev("*", "LS", "sasl message-tags"),                           // final line
+		ev("*", "LS", "unknown-cap"),                                 // nothing usable by itself
 		ev("me", "ACK", "sasl message-tags"),
 		ev("me", "ACK", "multi-prefix sts"),
 		ev("me", "NAK", "sasl"),
@@ -1157,7 +1234,7 @@ var capEnumAlphabet = func() []string {
 	}
 }()
 
-var capEnumConfigs = []string{"", "S", "SD"}
+var capEnumConfigs = []string{"", "S", "SD", "U"}
 
 const capEnumProbes = "sasl SASL message-tags multi-prefix batch sts"
 
@@ -1166,7 +1243,7 @@ func init() {
 		Name: "cap.enum",
 		Prop: []string{"C08"},
 		Exhaustive: "every sequence of at most 3 steps over 9 server lines (LS continuation, LS final, LS with nothing usable, " +
-			"two ACKs, NAK, NEW, DEL, reconnect) under the configurations {default, SASL, SASL+DisableSTS}: 3 x 820 sessions",
+			"two ACKs, NAK, NEW, DEL, reconnect) under the configurations {default, SASL, SASL+DisableSTS, default on a TLS connection}: 4 x 820 sessions",
 		Fixed: func() []Case {
 			var out []Case
 			var rec func(prefix []string, depth int)
@@ -1192,5 +1269,268 @@ func init() {
 			return c
 		},
 		Run: func(c Case) Result { return runCapSession(c) },
+	})
+}
+
+// ---- cap.tagsrace: the tag gate is evaluated when sendLoop takes the event off the queue
+//
+// "message tags are put on the wire only while message-tags is enabled": the wire write
+// happens when sendLoop dequeues an event, which can be long after Client.Send queued it.
+// The scripted server reads only when told to (in the goroutine of the test, no free-running
+// reader), so the schedule is deterministic on the unbuffered pipe:
+//
+//	1. the CAP lines of `pre` are handled (Client.RunHandlers returns when the handlers have);
+//	   an untagged fence is sent and read, so the queue is empty and sendLoop idle;
+//	2. the tagged event A is sent and the server reads its first 3 bytes only: sendLoop has
+//	   dequeued A (its gate is decided by `pre`) and is blocked inside the socket write;
+//	3. the events B_j (tags {k:v} / empty map / nil) are queued behind it;
+//	4. the CAP lines of `mid` are handled while everything is still blocked;
+//	5. an untagged fence is queued and the server reads to the fence.
+//
+// Every B_j is dequeued after step 4 has completed, so the current code decides its gate by
+// the capability state after `mid` — that, and nothing about timing, is what is compared
+// with the model and what the oracle requires (a tag section only if message-tags is
+// acknowledged and not deleted/disabled at that point).
+//
+// A case is: kinds of the B events (t/e/n), the number of pre lines, then the CAP lines.
+
+type racePeer struct {
+	conn net.Conn
+	buf  []byte
+}
+
+func (p *racePeer) readSome(max int, d time.Duration) bool {
+	tmp := make([]byte, max)
+	p.conn.SetReadDeadline(time.Now().Add(d))
+	n, err := p.conn.Read(tmp)
+	p.buf = append(p.buf, tmp[:n]...)
+	return n > 0 && err == nil
+}
+
+// readN reads exactly n more bytes.
+func (p *racePeer) readN(n int, d time.Duration) bool {
+	deadline := time.Now().Add(d)
+	want := len(p.buf) + n
+	for len(p.buf) < want {
+		if !p.readSome(want-len(p.buf), time.Until(deadline)) {
+			return false
+		}
+	}
+	return true
+}
+
+// readUntil reads until some complete line contains marker.
+func (p *racePeer) readUntil(marker string, d time.Duration) bool {
+	deadline := time.Now().Add(d)
+	for {
+		if i := strings.Index(string(p.buf), marker); i >= 0 && strings.Contains(string(p.buf[i:]), "\n") {
+			return true
+		}
+		if !p.readSome(4096, time.Until(deadline)) {
+			return false
+		}
+	}
+}
+
+func raceTags(kind byte) girc.Tags {
+	switch kind {
+	case 't':
+		return girc.Tags{"k": "v"}
+	case 'e':
+		return girc.Tags{}
+	}
+	return nil
+}
+
+func runTagsRace(c Case) Result {
+	if len(c) < 2 {
+		return Result{Obs: "?short-case"}
+	}
+	kinds := c[0]
+	npre := 0
+	for _, d := range c[1] {
+		if d < '0' || d > '9' {
+			return Result{Obs: "?bad-count"}
+		}
+		npre = npre*10 + int(d-'0')
+	}
+	evs := c[2:]
+	if npre > len(evs) || len(evs) > 12 || len(kinds) > 8 || c[1] == "" {
+		return Result{Obs: "?bad-count"}
+	}
+
+	cfg := capCfg{supported: map[string][]string{}}.girc()
+	cfg.RecoverFunc = func(*girc.Client, *girc.HandlerError) {}
+	client := girc.New(cfg)
+	in, out := net.Pipe()
+	done := make(chan error, 1)
+	go func() { done <- client.MockConnect(out) }()
+	defer func() {
+		client.Close()
+		go io.Copy(io.Discard, in) // whatever is still being written
+		select {
+		case <-done:
+		case <-time.After(20 * time.Second):
+		}
+		in.Close()
+	}()
+	p := &racePeer{conn: in}
+	const wait = 20 * time.Second
+	stall := func(where string) Result {
+		return Result{Obs: "?stall:" + where, Oracle: "stall: the scripted schedule did not make progress at: " + where, Sig: "stall"}
+	}
+	if !p.readUntil("USER ", wait) {
+		return stall("registration")
+	}
+	dl := time.Now().Add(wait)
+	for !client.IsConnected() && time.Now().Before(dl) {
+		time.Sleep(200 * time.Microsecond)
+	}
+
+	// the oracle's own ledger (IRCv3 reading), only message-tags matters
+	enabled := map[string]bool{}
+	feed := func(ev string) {
+		params := strings.Split(ev, "\n")
+		client.RunHandlers(&girc.Event{Source: &girc.Source{Name: "srv"}, Command: girc.CAP, Params: params})
+		if len(params) < 2 {
+			return
+		}
+		last := params[len(params)-1]
+		switch {
+		case params[1] == "ACK" && len(params) == 3:
+			for _, tok := range strings.Split(last, " ") {
+				if strings.HasPrefix(tok, "-") {
+					delete(enabled, tok[1:])
+				} else {
+					enabled[tok] = true
+				}
+			}
+		case params[1] == "DEL":
+			for _, tok := range strings.Split(last, " ") {
+				delete(enabled, capTokenName(tok))
+			}
+		}
+	}
+
+	for _, ev := range evs[:npre] {
+		feed(ev)
+	}
+	client.Send(&girc.Event{Command: girc.PRIVMSG, Params: []string{"#v", "fence0"}})
+	if !p.readUntil("fence0", wait) {
+		return stall("fence0")
+	}
+	allowedA := enabled["message-tags"]
+
+	markA := len(p.buf)
+	client.Send(&girc.Event{Command: girc.PRIVMSG, Params: []string{"#v", "evA"}, Tags: girc.Tags{"k": "v"}})
+	if !p.readN(3, wait) {
+		return stall("first bytes of A")
+	}
+	// sendLoop is inside the write of A; everything from here on is queued behind it
+	for j := 0; j < len(kinds); j++ {
+		client.Send(&girc.Event{Command: girc.PRIVMSG, Params: []string{"#v", fmt.Sprintf("evB%d.", j)}, Tags: raceTags(kinds[j])})
+	}
+	for _, ev := range evs[npre:] {
+		feed(ev)
+	}
+	allowedB := enabled["message-tags"]
+	client.Send(&girc.Event{Command: girc.PRIVMSG, Params: []string{"#v", "fence1"}})
+	if !p.readUntil("fence1", wait) {
+		return stall("fence1")
+	}
+
+	tagged := map[string]bool{}
+	seen := map[string]bool{}
+	for _, l := range strings.Split(string(p.buf[markA:]), "\n") {
+		l = strings.TrimRight(l, "\r")
+		body := l
+		if strings.HasPrefix(l, "@") {
+			if i := strings.IndexByte(l, ' '); i >= 0 {
+				body = l[i+1:]
+			}
+		}
+		if strings.HasPrefix(body, "PRIVMSG #v ") {
+			m := strings.TrimPrefix(strings.TrimPrefix(body, "PRIVMSG #v "), ":")
+			seen[m] = true
+			tagged[m] = strings.HasPrefix(l, "@")
+		}
+	}
+	var oracle string
+	fail := func(cls, format string, a ...interface{}) {
+		if oracle == "" {
+			oracle = cls + ": " + fmt.Sprintf(format, a...)
+		}
+	}
+	if !seen["evA"] {
+		fail("line-lost", "event A was not written")
+	}
+	obs := "a=" + B(tagged["evA"]) + "|b="
+	if tagged["evA"] && !allowedA {
+		fail("tags-ungated", "A written with a tag section although message-tags was not enabled when it was sent")
+	}
+	for j := 0; j < len(kinds); j++ {
+		m := fmt.Sprintf("evB%d.", j)
+		if !seen[m] {
+			fail("line-lost", "event B%d was not written", j)
+		}
+		obs += B(tagged[m])
+		if tagged[m] && !allowedB {
+			fail("tags-ungated", "event B%d, queued behind a blocked write, left the queue after %q had been handled and still carries its tag section", j, evs[npre:])
+		}
+	}
+	return Result{Obs: obs, Oracle: oracle, Sig: fmt.Sprintf("pre=%v/mid=%v/%d", allowedA, allowedB, len(kinds))}
+}
+
+var (
+	tagsRacePre = [][]string{
+		{},
+		{"*\nLS\nmessage-tags", "me\nACK\nmessage-tags"},
+		{"*\nLS\nmessage-tags batch", "me\nACK\nbatch message-tags"},
+		{"*\nLS\nmessage-tags", "me\nACK\nmessage-tags", "me\nDEL\nmessage-tags"},
+		{"me\nACK\nmessage-tags"},
+	}
+	tagsRaceMid = [][]string{
+		{},
+		{"me\nDEL\nmessage-tags"},
+		{"me\nACK\n-message-tags"},
+		{"me\nDEL\nbatch"},
+		{"me\nDEL\nmessage-tags", "me\nNEW\nmessage-tags", "me\nACK\nmessage-tags"},
+		{"*\nLS\nmessage-tags", "me\nACK\nmessage-tags"},
+		{"me\nDEL\nMESSAGE-TAGS"},
+		{"me\nNEW\nmessage-tags"},
+		{"me\nDEL\nbatch message-tags=x"},
+	}
+)
+
+func tagsRaceCase(kinds string, pre, mid []string) Case {
+	c := Case{kinds, fmt.Sprint(len(pre))}
+	c = append(c, pre...)
+	return append(c, mid...)
+}
+
+func init() {
+	Register(&Suite{
+		Name:       "cap.tagsrace",
+		Prop:       []string{"C08"},
+		Exhaustive: "every pair of 5 capability states before the blocked write and 9 CAP scripts handled during it (45 schedules), three queued events (tags, empty map, nil) each",
+		Fixed: func() []Case {
+			var out []Case
+			for _, pre := range tagsRacePre {
+				for _, mid := range tagsRaceMid {
+					out = append(out, tagsRaceCase("tne", pre, mid))
+				}
+			}
+			return out
+		},
+		Gen: func(r *rand.Rand) Case {
+			kinds := "t" + RandBytes(r, r.Intn(4), "tten")
+			pre := tagsRacePre[r.Intn(len(tagsRacePre))]
+			mid := append([]string{}, tagsRaceMid[r.Intn(len(tagsRaceMid))]...)
+			if r.Intn(3) == 0 {
+				mid = append(mid, tagsRaceMid[r.Intn(len(tagsRaceMid))]...)
+			}
+			return tagsRaceCase(kinds, pre, mid)
+		},
+		Run: runTagsRace,
 	})
 }
